@@ -44,6 +44,12 @@ The translator never guesses: every construct outside the supported subset abort
                object receive and return it.  Property setters ("setter": true), `with <declared lock>:` ("locks": the body,
                a lock changes nothing in a single-threaded model), generator bodies as one step ("generator_step"), slices
                of a long procedure ("slice": {"from_text", "until_text"}; the slices must be independent checks).
+  lock discipline   what "`with lock:` = its body" leaves out is emitted as DATA: for every translated instance method of a group that
+               declares "locks" (or "lock_info": true) a record `<lean_name>.lockInfo : Pyoda.Gen.LockInfo` (attributes of self read
+               / written, which of them are mutable after construction, whether every access to those lies inside
+               `with self.<lock>:`, the number of such blocks, same-class members used while holding the lock, steps taken outside
+               it, `gilOnly` + the single operations relied on when the class has no lock) — `lock_discipline` below; the
+               atomicity theorems `gen_<op>_atomic` of GenAgreeC19 / GenAgreeC13 evaluate `LockInfo.Atomic` on it.
   optionals    an attribute / parameter / local declared `?T` is a run-time `Option T`; `x is None`, `x is not None`,
                `if (x := f()) is None`, `while x is not None and …`, `if x is None or B` narrow it; use of an optional where
                a T is needed without such a test is UNSUPPORTED.
@@ -829,9 +835,17 @@ class Gen:
             order.append(t)
         for t in done:
             visit(t)
+        lock_info = bool(self.cfg.get("locks") or self.cfg.get("lock_info"))
+        if lock_info:  # the lock discipline of every translated instance method, as data (PyodaGen/LockInfo.lean)
+            k = out.index("set_option linter.unusedVariables false") - 1
+            out.insert(k, "import PyodaGen.LockInfo")
         for t in order:
             out.extend(Emitter(self, t).emit())
             out.append("")
+            if lock_info and getattr(t, "cls_node", None) is not None and t.node in _self_methods(t.cls_node):
+                where = f"{t.file}: {t.cls}.{t.function}"
+                out.extend(render_lock_info(t.lean_name, where, lock_discipline(t.cls_node, t.node, self.cfg.get("locks", []))))
+                out.append("")
         out.append(f"end Pyoda.Gen.{self.prop}")
         return "\n".join(out) + "\n"
 
@@ -3865,6 +3879,175 @@ class FnTranslator:
             self.pure_translated_calls.add(id(e))
         r = self.deliver(e, txt, c.ret, c.raises, pre, cond, want_raw)
         return r
+
+
+# ------------------------------------------------------------------------------------------------
+# lock discipline (builder B10): what `with self.__lock:` = "its body" leaves out, as data for the atomicity theorems
+# ------------------------------------------------------------------------------------------------
+
+LOCK_MUTATORS = frozenset("append appendleft extend extendleft insert pop popleft popitem remove clear update setdefault add "
+                          "discard sort reverse rotate move_to_end".split())
+LOCK_READERS = frozenset("keys values items get copy index count".split())
+LOCK_FACTORIES = ("threading.Lock", "threading.RLock", "Lock", "RLock")
+
+
+def _self_methods(cls: ast.ClassDef) -> list:
+    """The instance methods of a class body (first parameter `self`; class and static methods have no object state of
+    their own: a `self` built inside a factory classmethod is under construction, not shared yet)."""
+    out = []
+    for st in cls.body:
+        if isinstance(st, ast.FunctionDef) and st.args.args and st.args.args[0].arg == "self":
+            decos = [ast.unparse(d) for d in st.decorator_list]
+            if "classmethod" not in decos and "staticmethod" not in decos:
+                out.append(st)
+    return out
+
+
+def _lock_scan(cls: ast.ClassDef, fn: ast.FunctionDef, locks: list) -> dict:
+    """Direct record of one method: every use of `self.<attr>` with its kind and whether it lies inside `with self.<lock>:`."""
+    members = {}
+    for m in _self_methods(cls):
+        decos = [ast.unparse(d) for d in m.decorator_list]
+        kind = "setter" if any(d.endswith(".setter") for d in decos) else \
+            "property" if any(d == "property" or d.endswith("cached_property") for d in decos) else "method"
+        members.setdefault(m.name, set()).add(kind)
+    consts = set()
+    for st in cls.body:  # class-level constants and nested classes read through `self`: not object state
+        if isinstance(st, ast.ClassDef):
+            consts.add(st.name)
+        elif isinstance(st, ast.Assign):
+            consts.update(t.id for t in st.targets if isinstance(t, ast.Name))
+        elif isinstance(st, ast.AnnAssign) and st.value is not None and isinstance(st.target, ast.Name):
+            consts.add(st.target.id)
+    rec = {"acc": [], "selfcalls": [], "outer": [], "sections": 0, "manual": False}
+
+    def is_self(n):
+        return isinstance(n, ast.Attribute) and isinstance(n.value, ast.Name) and n.value.id == "self"
+
+    def visit(n, held, parent=None, grand=None):
+        if isinstance(n, ast.With):
+            inner = held
+            for it in n.items:
+                ce = it.context_expr
+                if is_self(ce) and ce.attr in locks and it.optional_vars is None:
+                    rec["sections"] += 1
+                    inner = True
+                else:
+                    visit(ce, held, n)
+                    if it.optional_vars is not None:
+                        visit(it.optional_vars, held, n)
+            for b in n.body:
+                visit(b, inner, n)
+            return
+        if isinstance(n, ast.AugAssign):
+            tg = n.target
+            base = tg.value if isinstance(tg, ast.Subscript) else tg
+            if is_self(base) and base.attr not in locks:
+                rec["acc"].append(("r", base.attr, held, "load " + ast.unparse(tg)))
+        if is_self(n):
+            a = n.attr
+            if a in locks:
+                made_here = isinstance(parent, (ast.Assign, ast.AnnAssign)) and isinstance(parent.value, ast.Call) \
+                    and ast.unparse(parent.value.func) in LOCK_FACTORIES
+                if not made_here:
+                    rec["manual"] = True   # the lock used otherwise than as `with self.<lock>:`
+                return
+            pos = (n.lineno, n.col_offset)
+            call_of = isinstance(parent, ast.Call) and parent.func is n
+            via = isinstance(parent, ast.Attribute) and parent.value is n and isinstance(grand, ast.Call) and grand.func is parent
+            sub = isinstance(parent, ast.Subscript) and parent.value is n
+            store = isinstance(n.ctx, (ast.Store, ast.Del))
+            if a in members and not (store and "setter" not in members[a]):
+                # a method call, a bound method, a property read, a property store
+                rec["selfcalls"].append((a + (".setter" if store else ""), held, pos))
+                if via and parent.attr not in LOCK_READERS:
+                    rec["outer"].append((f"{a}.{parent.attr}", held, pos))
+            elif a in consts:
+                if via:
+                    rec["outer"].append((f"{a}.{parent.attr}", held, pos))
+            elif call_of:
+                rec["acc"].append(("r", a, held, "load " + a))
+                rec["outer"].append((a, held, pos))                  # a callable held in an attribute
+            elif via and parent.attr in LOCK_MUTATORS:
+                rec["acc"].append(("w", a, held, f"call {a}.{parent.attr}"))
+            elif via and parent.attr not in LOCK_READERS:
+                rec["acc"].append(("r", a, held, "load " + a))
+                rec["outer"].append((f"{a}.{parent.attr}", held, pos))  # a step of another object
+            elif sub and isinstance(parent.ctx, (ast.Store, ast.Del)):
+                rec["acc"].append(("w", a, held, ("store " if isinstance(parent.ctx, ast.Store) else "del ") + f"{a}[·]"))
+            elif store:
+                rec["acc"].append(("w", a, held, ("store " if isinstance(n.ctx, ast.Store) else "del ") + a))
+            else:
+                rec["acc"].append(("r", a, held, "load " + (f"{a}[·]" if sub else a)))
+            return
+        for c in ast.iter_child_nodes(n):
+            visit(c, held, n, parent)
+
+    for st in fn.body:
+        visit(st, False, fn)
+    return rec
+
+
+def lock_discipline(cls: ast.ClassDef, fn: ast.FunctionDef, declared: list) -> dict:
+    """The LockInfo record (lean/PyodaGen/LockInfo.lean) of method `fn` of class `cls`.  declared: lock attributes named by the
+    target group ("locks": ["self.__lock"]); without a declaration the attributes assigned a threading lock in the class."""
+    methods = _self_methods(cls)
+    locks = [x.split(".", 1)[1] for x in declared if x.startswith("self.")]
+    made = [t.attr for m in methods for st in ast.walk(m) if isinstance(st, (ast.Assign, ast.AnnAssign))
+            and isinstance(st.value, ast.Call) and ast.unparse(st.value.func) in LOCK_FACTORIES
+            for t in (st.targets if isinstance(st, ast.Assign) else [st.target])
+            if isinstance(t, ast.Attribute) and isinstance(t.value, ast.Name) and t.value.id == "self"]
+    locks = [a for a in locks if a in made] or made
+    locks = locks[:1]   # one and the same lock for the class: a `with` on any other attribute guards nothing
+    recs = {id(m): _lock_scan(cls, m, locks) for m in methods}
+    if id(fn) not in recs:
+        recs[id(fn)] = _lock_scan(cls, fn, locks)
+    shared = {a for m in methods if m.name != "__init__" for k, a, _, _ in recs[id(m)]["acc"] if k == "w"}
+
+    def targets_of(name):
+        want = "setter" if name.endswith(".setter") else None
+        base = name[:-7] if want else name
+        return [m for m in methods if m.name == base and
+                (any(ast.unparse(d).endswith(".setter") for d in m.decorator_list) == bool(want))]
+    touches = {id(m): bool(recs[id(m)]["outer"]) or any(a in shared for _, a, _, _ in recs[id(m)]["acc"]) for m in methods}
+    changed = True
+    while changed:  # a member that uses a touching member touches
+        changed = False
+        for m in methods:
+            if not touches[id(m)] and any(touches[id(c)] for nm, _, _ in recs[id(m)]["selfcalls"] for c in targets_of(nm)):
+                touches[id(m)] = changed = True
+    r = recs[id(fn)]
+    mine = [x for x in r["acc"] if x[1] in shared]
+    steps = [(nm, h, pos) for nm, h, pos in r["selfcalls"] if any(touches[id(c)] for c in targets_of(nm))]
+    outside = sorted([(pos, nm) for nm, h, pos in steps if not h] + [(pos, nm) for nm, h, pos in r["outer"] if not h])
+    info = {
+        "lock": locks[0] if locks else "",
+        "reads": sorted({a for k, a, _, _ in r["acc"] if k == "r"}),
+        "writes": sorted({a for k, a, _, _ in r["acc"] if k == "w"}),
+        "shared": sorted({a for _, a, _, _ in mine}),
+        "allGuarded": all(h for _, _, h, _ in mine) and not r["manual"],
+        "sections": r["sections"],
+        "selfCallsInside": [nm for nm, h, _ in r["selfcalls"] if h],
+        "callbacksInside": [nm for nm, h, _ in r["outer"] if h],
+        "stepsOutside": [nm for _, nm in outside],   # source order
+        "gilOnly": bool(mine) and not locks,
+        "gilOps": [d for _, _, _, d in mine] if (mine and not locks) else [],
+    }
+    return info
+
+
+def render_lock_info(lean_name: str, where: str, info: dict) -> list:
+    def lst(xs):
+        return "[" + ", ".join(json.dumps(x, ensure_ascii=False) for x in xs) + "]"
+    fields = []
+    for k, v in info.items():
+        if k in ("callbacksInside", "stepsOutside", "gilOnly", "gilOps") and not v:
+            continue  # the structure's default
+        fields.append(f"{k} := " + (lst(v) if isinstance(v, list) else json.dumps(v, ensure_ascii=False) if isinstance(v, str)
+                                   else ("true" if v else "false") if isinstance(v, bool) else str(v)))
+    return [f"/-- lock discipline of `{where}` (computed from the AST; see PyodaGen/LockInfo.lean) -/",
+            f"def {lean_name}.lockInfo : Pyoda.Gen.LockInfo :=",
+            "  { " + ", ".join(fields[:4]) + ",\n    " + ", ".join(fields[4:]) + " }"]
 
 
 # ------------------------------------------------------------------------------------------------
